@@ -460,7 +460,12 @@ def _only_pure_lets(stmts):
     return True
 
 
+RULES["R14.1"] += " | returned-as-computed: on the E6 value of every non-panicking path of reshape / flatten / get_flat / get_triple and the tensor constructors, the only straight-line in-place changes are appends and the replacement of the data / shape fields as a whole: no entry is assigned, dropped or moved after the copy loops"
+
+
 def run(ctx):
+    from .common import returned_as_computed
+    ctx.guard("R14.1", "returned-as-computed", returned_as_computed, ctx, "R14.1", {"src/tensor.rs"}, lambda p_, l_: l_ in ("reshape", "flatten", "get_flat", "get_triple", "single", "double", "triple", "quadruple", "quintuple", "nested", "nestedoptional", "unnested", "unnestedoptional"), ("field-assignment",), 8)
     ctx.guard("R14.1", "reshape", r1_r2_reshape, ctx)
     ctx.guard("R14.2", "flatten", r2_flatten, ctx)
     ctx.guard("R14.3", "constructors", r3_constructors, ctx)
